@@ -18,12 +18,31 @@ func (w *Worker) newObj(n int) *Obj {
 		o.ID = w.nextBase
 		o.Base = true
 		w.baseObjs[o.ID] = o
+		o.Tag = w.initOwnerTag()
 	} else {
 		w.nextObj++
 		o.ID = pathObjBase + w.nextObj
 		w.objs[o.ID] = o
 	}
 	return o
+}
+
+// initOwnerTag: memory allocated while a gobwas/* package initialises (compiled frames, tables,
+// default values, ...) is shared by every connection of the process, exactly like the
+// package-level variables that point to it: obligation O1 covers it too.  Allocations made by
+// the harness's own package-level initialisers (zz_verif_ files) are not library state.
+func (w *Worker) initOwnerTag() string {
+	if len(w.stack) == 0 {
+		return ""
+	}
+	root := w.stack[0]
+	if root.fn.Pkg == nil || root.fn.Name() != "init" || !strings.HasPrefix(root.fn.Pkg.Pkg.Path(), "github.com/gobwas/") {
+		return ""
+	}
+	if root.cur != nil && root.cur.Pos().IsValid() && strings.Contains(w.prog.Fset.Position(root.cur.Pos()).Filename, "zz_verif_") {
+		return ""
+	}
+	return root.fn.Pkg.Pkg.Path() + " init-time object (allocated in " + w.curFn() + ")"
 }
 
 func (w *Worker) obj(id int) *Obj {
